@@ -850,7 +850,10 @@ def _check_database_structure(conn: sqlite3.Connection):
     """
     cursor = conn.cursor()
 
-    cursor.execute("BEGIN TRANSACTION;")
+    # These transactions read first and then write. With concurrent access, upgrading
+    # the read lock of a deferred transaction fails immediately with "database is
+    # locked", so take the write lock (and wait for it) at the start.
+    cursor.execute("BEGIN IMMEDIATE TRANSACTION;")
     cursor.execute("SELECT name FROM sqlite_master WHERE type='table' AND name='models'")
     table_exists = cursor.fetchone()
     table_correct = False
@@ -891,7 +894,7 @@ def _check_database_structure(conn: sqlite3.Connection):
 
     # For metadata we check if the table layout is correct, but also whether
     # the metadata keys exist.
-    cursor.execute("BEGIN TRANSACTION;")
+    cursor.execute("BEGIN IMMEDIATE TRANSACTION;")
     cursor.execute("SELECT name FROM sqlite_master WHERE type='table' AND name='metadata'")
     metadata_table_exists = cursor.fetchone()
     metadata_table_correct = False
@@ -1053,6 +1056,10 @@ def _parse_cached(
             result = cursor.fetchone()
             if result != ("ok",):
                 raise sqlite3.DatabaseError("Database integrity check failed")
+        except sqlite3.OperationalError:
+            # Locked or busy, e.g. by another process using it: not a corrupt database
+            conn.close()
+            raise
         except sqlite3.DatabaseError:
             conn.close()
 
